@@ -7,11 +7,11 @@ n = int(sys.argv[2]) if len(sys.argv) > 2 else 3
 p = [json.loads(l) for l in open(os.path.join(V, 'properties.jsonl'))]
 p = [x for x in p if x['id'] == pid][0]
 import glob
-round2 = '--round2' in sys.argv or '--round3' in sys.argv
+round2 = '--round2' in sys.argv or '--round3' in sys.argv or '--round4' in sys.argv
 avoid = ''
 suffix = ''
 if round2:
-    suffix = 'c' if '--round3' in sys.argv else 'b'
+    suffix = 'd' if '--round4' in sys.argv else ('c' if '--round3' in sys.argv else 'b')
     prev = []
     for m in sorted(glob.glob(os.path.join(V, 'seeded', pid + '_m*', 'meta.json'))):
         d = json.load(open(m))
@@ -19,6 +19,13 @@ if round2:
     avoid = ("\nALREADY DONE by an earlier round (do NOT repeat these or close variants; pick other code sites, other clauses of the "
              "property, other manifestation mechanisms — e.g. state carried between calls on one object, aliasing of arrays handed in or out, "
              "an unusual but legal configuration, interaction of two options, boundary values, order of operations):\n" + '\n'.join(prev) + '\n')
+    if '--round4' in sys.argv:
+        avoid += ("\nMIX FOR THIS ROUND: change 1 = a PLAIN local slip of the kind that really happens in ordinary commits (off-by-one, "
+                  "< vs <=, swapped arguments or indices, wrong default value, a dropped abs()/copy()/sort, a wrong axis, int vs float "
+                  "division, a condition negated for one branch, a stale variable reused after a loop) at a code site not listed above, "
+                  "that the 174 tests nevertheless do not notice; change 2 = an interaction (two options, two call sites, or a "
+                  "configuration + a boundary value); change 3 = free choice, the subtlest you can find for a clause of the property "
+                  "that the list above has touched least. Never use `git stash` (shared between worktrees).\n")
 print(f"""You are a careful software engineer asked to inject realistic, subtle regressions into the Python package icecube/skyllh
 (a framework for unbinned likelihood analyses of neutrino data) in order to evaluate somebody else's verification tooling, which
 you know nothing about and must not look for (do not read anything under /verif).
